@@ -25,6 +25,10 @@ thread_local! {
 static FOREIGN: Mutex<Vec<PanicRec>> = Mutex::new(Vec::new());
 static MAIN_THREAD: Mutex<Option<std::thread::ThreadId>> = Mutex::new(None);
 
+thread_local! {
+    static CATCH_DEPTH: std::cell::Cell<u32> = const { std::cell::Cell::new(0) };
+}
+
 pub fn install_hook() {
     *MAIN_THREAD.lock().unwrap() = Some(std::thread::current().id());
     std::panic::set_hook(Box::new(|info| {
@@ -53,6 +57,9 @@ pub fn install_hook() {
                 }
             }
         }
+        if CATCH_DEPTH.with(|d| d.get()) == 0 {
+            eprintln!("uncaught panic (machinery): {file}:{line}: {msg}");
+        }
         let rec = PanicRec { file, line, msg, repo_frame };
         let is_main = *MAIN_THREAD.lock().unwrap() == Some(std::thread::current().id());
         if is_main {
@@ -67,7 +74,10 @@ pub fn install_hook() {
 
 /// Run `f`, converting a panic into a record.
 pub fn catch<T>(f: impl FnOnce() -> T) -> Result<T, PanicRec> {
-    match catch_unwind(AssertUnwindSafe(f)) {
+    CATCH_DEPTH.with(|d| d.set(d.get() + 1));
+    let r = catch_unwind(AssertUnwindSafe(f));
+    CATCH_DEPTH.with(|d| d.set(d.get() - 1));
+    match r {
         Ok(v) => Ok(v),
         Err(_) => Err(LAST.with(|l| l.borrow_mut().take()).unwrap_or(PanicRec {
             file: "?".into(),
